@@ -217,6 +217,51 @@ def oracle(ctx):
             res.oracle_failures.append(dict(op='fault-run', input=dict(failing_writes=n_write, conversion_errors=n_conv),
                                             impl_output=dict(exit=rc, errors_logged=len(e2e.error_lines(se))),
                                             oracle_expectation=f'{n_write} service files cannot be written (and {n_conv} units fail to convert): the exit status must be non-zero'))
+    # a service file that cannot be created because of its own *name*: the unit's file name is fine, the generated name (stem + type suffix +
+    # ".service", or a long ServiceName=) exceeds what a directory entry can hold — a failure to create like any other: reported, status 1,
+    # the other services written; at the boundary (255 bytes) the file is written
+    long_cases = []
+    for kind, stem_len in (('volume', 248), ('network', 245), ('pod', 250), ('volume', 240), ('svcname', 252), ('svcname', 247), ('image', 243)):
+        long_cases.append((kind, stem_len))
+
+    def run_long(c):
+        kind, n = c
+        base = e2e.fresh_dir()
+        os.makedirs(os.path.join(base, 'src'))
+        if kind == 'svcname':
+            files = {'named.container': '[Container]\nImage=localhost/i\nServiceName=' + 's' * n + '\n'}
+            svc = 's' * n + '.service'
+        else:
+            sec = {'volume': 'Volume', 'network': 'Network', 'pod': 'Pod', 'image': 'Image'}[kind]
+            files = {'v' * n + '.' + kind: '[' + sec + ']\n' + ('Image=quay.io/x/y\n' if kind == 'image' else '')}
+            svc = 'v' * n + '-' + kind + '.service'
+        files['aa-before.container'] = '[Container]\nImage=localhost/a\n'
+        files['zz-after.volume'] = '[Volume]\n'
+        for fn, t in files.items():
+            with open(os.path.join(base, 'src', fn), 'w') as f:
+                f.write(t)
+        out = os.path.join(base, 'out')
+        rc, so, se = e2e.run_binary(['--no-kmsg-log', out], os.path.join(base, 'src'))
+        made = sorted(os.listdir(out)) if os.path.isdir(out) else []
+        shutil.rmtree(base, ignore_errors=True)
+        return svc, rc, se, made
+    for (kind, n), (svc, rc, se, made) in zip(long_cases, e2e.pmap(run_long, long_cases)):
+        res.oracle_evals += 1
+        too_long = len(svc.encode()) > 255
+        errs = [l for l in se.split('\n') if 'ERROR' in l]
+        fails = []
+        if too_long:
+            if rc != 1:
+                fails.append(f'the service file name has {len(svc)} bytes and cannot be created: exit status must be 1, is {rc}')
+            if not any(svc[:60] in l for l in errs):
+                fails.append(f'no error names the service file that could not be created ({svc[:20]}… {len(svc)} bytes): {[e[:160] for e in errs[:3]]}')
+        elif rc != 0 or svc not in made:
+            fails.append(f'a service file name of {len(svc)} bytes fits: exit {rc}, written {svc in made}')
+        if 'aa-before.service' not in made or 'zz-after-volume.service' not in made:
+            fails.append(f'the other services must still be written: {[m[:40] for m in made]}')
+        for f in fails:
+            res.oracle_failures.append(dict(op='fault-run', input=dict(kind=kind, stem_or_name_length=n, service_file_name_bytes=len(svc)), impl_output=dict(exit=rc, errors=[e[:200] for e in errs[:3]]),
+                                            oracle_expectation=f))
     # the whole output directory on a read-only file system (EROFS: the observation point "read-only mounts"), in a private mount namespace
     from props import c14 as _c14
     if _c14.ns_available():
